@@ -11,9 +11,40 @@ Definition is_prefix {A} (a b : list A) : Prop := exists t, b = a ++ t.
 
 (* the sender's log: the authenticated events of the messages it produced (MAC input + tag,
    or AEAD iv/aad/ciphertext), as the honest receiver run reports them *)
-Definition sender_log (P : prims) (r : pstate P) (wire : list Z) : list authev :=
-  let '(_, evs, _, _, _) := read_many_flat P (S (length wire)) r wire in evs.
+Definition sender_log (P : prims) (fuel : nat) (r : pstate P) (wire : list Z) : list authev :=
+  let '(_, evs, _, _, _) := read_many_flat P fuel r wire in evs.
 
 (* symbolic (Dolev-Yao) premise: every tag / AEAD ciphertext the receiver accepted while reading
    the adversary's stream was produced by the key owner for exactly these bytes *)
 Definition authentic (log accepted : list authev) : Prop := Forall (fun ev => In ev log) accepted.
+
+(* the freshness component of an authenticated event and of a receiver state: the packed sequence
+   number (MAC modes) or the IV (AEAD) *)
+Definition ev_nonce (ev : authev) : list Z :=
+  match ev with
+  | EvMac m _ => firstn 4 m
+  | EvAead iv _ _ => iv
+  | EvNone => []
+  end.
+Definition state_nonce {P} (r : pstate P) : list Z :=
+  match p_mode r with
+  | Plain => []
+  | Classic _ _ | Etm _ _ => be_encode 4 (p_seq r)
+  | Aead _ iv => iv
+  end.
+(* modes for which the whole-stream theorem is proved *)
+Definition protected {P} (r : pstate P) : Prop :=
+  match p_mode r with Etm _ _ | Aead _ _ => True | _ => False end.
+
+(* nonces of the receiver states the honest run passes through (including the state after the last
+   message).  They are pairwise distinct when fewer than 2^32 packets are sent under one key and
+   the IV counter stays below 2^64 (RFC 4344 requires re-keying before the wrap) *)
+Fixpoint honest_nonces (P : prims) (fuel : nat) (r : pstate P) (w : list Z) : list (list Z) :=
+  state_nonce r ::
+  match fuel with
+  | O => []
+  | S f => match read_message_flat P r w with
+           | Done (_, _, r') w' => honest_nonces P f r' w'
+           | _ => []
+           end
+  end.
